@@ -21,6 +21,8 @@ type Clause struct {
 }
 
 type LoopSpec struct {
+	Entry      []*Clause // asserted when the loop is entered (state after the code before it)
+	Assumes    []*Clause // trusted facts of every iteration (representation invariants of other types)
 	Invariants []*Clause
 	Modifies   []SExpr
 	Writes     []string // source-level outer locals the loop may assign (syntactic obligation)
@@ -35,40 +37,42 @@ type CallAssert struct {
 }
 
 type Contract struct {
-	Key       string
-	File      string
-	Line      int
-	Extern    bool // trusted: never verified, only used at call sites
-	Pure      bool
-	Inline    bool
-	NoMapRange bool // syntactic obligation: the function does not iterate over a map
-	Getter    bool // result is a function of receiver and arguments only; no effects (trusted)
-	Preserves []string // type names whose objects keep their content (used with an unspecified/heap footprint)
-	Safe      bool
-	SafeOnly  []string // restrict safety obligations to descriptions mentioning one of these
-	Requires  []*Clause
-	Assumes   []*Clause // representation invariants assumed at entry (not checked at call sites; trusted)
-	Ensures   []*Clause
-	Lemmas    map[*Clause]bool // ensures that are checked but not exported to callers (may mention locals)
-	Modifies  []SExpr // nil = unspecified (anything)
-	HasMod    bool
-	Loops     map[int]*LoopSpec
-	CallAsrt  []*CallAssert
-	Lets      map[string]SExpr
-	Props     []string // property ids this contract serves
-	Used      bool
-	NoBody    bool // contract on interface method
-	ParamName []string
+	Key        string
+	File       string
+	Line       int
+	Extern     bool // trusted: never verified, only used at call sites
+	Pure       bool
+	Inline     bool
+	Guarded    [][2]string // (field, mutex field): the field is accessed only while the mutex is held
+	AssumePre  []string    // callee key patterns whose preconditions are assumed at call sites (trusted)
+	NoMapRange bool        // syntactic obligation: the function does not iterate over a map
+	Getter     bool        // result is a function of receiver and arguments only; no effects (trusted)
+	Preserves  []string    // type names whose objects keep their content (used with an unspecified/heap footprint)
+	Safe       bool
+	SafeOnly   []string // restrict safety obligations to descriptions mentioning one of these
+	Requires   []*Clause
+	Assumes    []*Clause // representation invariants assumed at entry (not checked at call sites; trusted)
+	Ensures    []*Clause
+	Lemmas     map[*Clause]bool // ensures that are checked but not exported to callers (may mention locals)
+	Modifies   []SExpr          // nil = unspecified (anything)
+	HasMod     bool
+	Loops      map[int]*LoopSpec
+	CallAsrt   []*CallAssert
+	Lets       map[string]SExpr
+	Props      []string // property ids this contract serves
+	Used       bool
+	NoBody     bool // contract on interface method
+	ParamName  []string
 }
 
 type SpecFunc struct {
-	Name   string
-	Params []SParam
-	Result string
-	Body   SExpr // nil = uninterpreted ghost function
+	Name    string
+	Params  []SParam
+	Result  string
+	Body    SExpr  // nil = uninterpreted ghost function
 	PkgPath string // import path of the package whose contract file declares it
-	File   string
-	Line   int
+	File    string
+	Line    int
 }
 
 type SParam struct{ Name, Type string }
@@ -120,9 +124,9 @@ type (
 )
 
 type lexer struct {
-	s   string
-	pos int
-	tok string
+	s    string
+	pos  int
+	tok  string
 	kind byte // 'i' ident, 'n' number, 's' string, 'o' operator, 0 eof
 }
 
@@ -388,7 +392,7 @@ func (p *parser) postfix(e SExpr) SExpr {
 // contract file parsing
 
 var clauseKeywords = map[string]bool{"requires": true, "assumes": true, "ensures": true, "lemma": true, "modifies": true, "loop": true, "at": true,
-	"safe": true, "pure": true, "inline": true, "getter": true, "preserves": true, "no-map-range": true, "end": true, "let": true, "props": true, "trusted": true}
+	"safe": true, "pure": true, "inline": true, "getter": true, "preserves": true, "no-map-range": true, "assume-pre": true, "guarded": true, "end": true, "let": true, "props": true, "trusted": true}
 
 // parseContractFile reads every //@ line of a file.
 func (p *Prog) parseContractFile(file string) error {
@@ -604,6 +608,17 @@ func (ct *Contract) addClause(txt, file string, line int) error {
 		ct.Inline = true
 	case "no-map-range":
 		ct.NoMapRange = true
+	case "guarded":
+		// guarded <field> by <mutex field>: lock discipline obligation at every access
+		f := strings.Fields(rest)
+		if len(f) != 3 || f[1] != "by" {
+			return fmt.Errorf("guarded <field> by <mutex field>")
+		}
+		ct.Guarded = append(ct.Guarded, [2]string{f[0], f[2]})
+	case "assume-pre":
+		// assume-pre <callee pattern>...: preconditions of these callees are
+		// assumed at their call sites in this function (trusted, reported)
+		ct.AssumePre = append(ct.AssumePre, strings.Fields(rest)...)
 	case "getter":
 		ct.Getter = true
 		ct.HasMod = true
@@ -682,6 +697,20 @@ func (ct *Contract) addClause(txt, file string, line int) error {
 				return err
 			}
 			ls.Invariants = append(ls.Invariants, c)
+		case "entry":
+			// checked once, when the loop is entered; neither preserved nor assumed
+			c, err := mk(body)
+			if err != nil {
+				return err
+			}
+			ls.Entry = append(ls.Entry, c)
+		case "assumes":
+			// trusted: assumed at the loop head of every iteration, never checked
+			c, err := mk(body)
+			if err != nil {
+				return err
+			}
+			ls.Assumes = append(ls.Assumes, c)
 		case "modifies":
 			ms, err := parseModifies(body)
 			if err != nil {
